@@ -23,6 +23,9 @@ def r14_1(chk):
         for n in ast.walk(f.node):
             if isinstance(n, ast.Assign) and any(unparse(t).endswith("._orb_frame") for t in n.targets):
                 writers.append((f, n))
+    # `__setstate__` restores what `__reduce__` saved (unpickling): the value is the pickled one, not a new choice
+    restorers = [(f, n) for f, n in writers if f.name == "__setstate__" and unparse(n.value) == f"{f.params()[1]}['orb_frame']"]
+    writers = [w for w in writers if w not in restorers]
     ok = len(writers) == 1 and writers[0][0].name == "__new__" and unparse(writers[0][1].value) == f"{writers[0][0].params()[1]}.frame"
     chk.inst("R14.1", f"{COV}::Cov::_orb_frame-assigned-at-attachment", ok, "the reference frame is the state's frame at attachment and never changes" if ok else
              f"writers: {[w[0].ref for w in writers]}", COV)
